@@ -60,5 +60,34 @@ vs, _ = tv.validate(wd, small, tag="st-tv")
 failing = {i: v["clause"] for i, v in vs.items() if not v["ok"]}
 print("estimands: failing", failing, "expected", {target["id"]: "value", flip["id"]: "answered-unidentifiable"})
 ok &= failing == {target["id"]: "value", flip["id"]: "answered-unidentifiable"}
+
+# ---- 3. generator traces (CITrace.tla): a wrong conditioning set, a missing judgement and a duplicated pair are rejected
+import citrace  # noqa: E402
+from common import SPEC  # noqa: E402
+
+chain = {"n": [1, 2, 3], "d": [[1, 2], [2, 3]], "b": []}
+ct = [{"id": "good", "g": chain, "k": -1, "events": [[1, 3, [2]]]},
+      {"id": "wrong-set", "g": chain, "k": -1, "events": [[1, 3, []]]},
+      {"id": "missing", "g": chain, "k": -1, "events": []},
+      {"id": "duplicate", "g": chain, "k": -1, "events": [[1, 3, [2]], [1, 3, [2]]]},
+      {"id": "limit-exclusive", "g": chain, "k": 1, "events": []},
+      {"id": "limit-inclusive", "g": chain, "k": 1, "events": [[1, 3, [2]]]}]
+(wd / "ci-bad.json").write_text(json.dumps(ct))
+r = tlc("CITrace.tla", SPEC / "CITrace.cfg", workers=1, env={"TRACE_FILE": str(wd / "ci-bad.json")}, meta=wd / "ci-meta")
+acc = {json.loads(json.loads('"' + m + '"'))["id"] for m in citrace._ACC.findall(r["out"])}
+print("generator traces: accepted", sorted(acc))
+ok &= acc == {"good", "limit-exclusive", "limit-inclusive"}
+
+# ---- 4. query machine (QueryMachine.tla): a behaviour whose recorded state is corrupted is rejected by the replay
+beh = [{"op": "init", "arg": [], "q": {"y": [3], "x": [1], "z": [2]}, "res": "ok"},
+       {"op": "exchange_observation_with_action", "arg": [2], "q": {"y": [3], "x": [1, 2], "z": []}, "res": "ok"},
+       {"op": "uncondition", "arg": [], "q": {"y": [3], "x": [1, 2], "z": []}, "res": "ok"}]
+badb = copy.deepcopy(beh)
+badb[1]["q"]["x"] = [1]          # the spec state says z moved to x; a trace claiming otherwise must not replay
+(wd / "q-in.json").write_text(json.dumps([beh, badb]))
+drive("drive_query.py", [str(wd / "q-in.json"), str(wd / "q-out.json")])
+qf = json.loads((wd / "q-out.json").read_text())["fails"]
+print("query machine: failing behaviours", sorted({json.dumps(f["behaviour"][1]["q"], sort_keys=True) for f in qf}))
+ok &= len(qf) == 2 and all(f["behaviour"] == badb and f["clause"] == "state" for f in qf)
 print("SELFTEST", "OK" if ok else "FAILED")
 sys.exit(0 if ok else 1)
